@@ -545,7 +545,15 @@ func (pConn *PFCPConn) handleSessionReportResponse(msg message.Message) error {
 		return errUnmarshal(errMsgUnexpectedType)
 	}
 
-	cause := srres.Cause.Payload[0]
+	if srres.Cause == nil {
+		return errUnmarshal(errors.New("missing mandatory Cause IE"))
+	}
+
+	cause, err := srres.Cause.Cause()
+	if err != nil {
+		return errUnmarshal(err)
+	}
+
 	if cause == ie.CauseRequestAccepted {
 		return nil
 	}
